@@ -13,9 +13,10 @@ Definition U := Build_ubd_rec.
 Definition RE := Build_red_entry.
 Definition R := Build_red_rec.
 Definition MR := Build_mig_rec.
-Definition PR (st : Z) (prop : addr) (tot de ve : Z) : proposal :=
+Definition PR (st : Z) (prop : addr) (tot de ve vp mn ex : Z) : proposal :=
   {| p_status := if st =? 1 then PDeposit else if st =? 2 then PVoting else PClosed;
-     p_proposer := prop; p_total := tot; p_dep_end := de; p_vote_end := ve |}.
+     p_proposer := prop; p_total := tot; p_dep_end := de; p_vote_end := ve;
+     p_vp := vp; p_min := mn; p_exp := negb (ex =? 0) |}.
 Definition CFG := Build_config.
 
 Definition unitize {K} (l : list K) : list (K * unit) := map (fun k => (k, tt)) l.
@@ -41,8 +42,8 @@ Definition crecover (from to : addr) (x : csig) : option addr :=
 Inductive cop :=
 | CMigrate (from to : addr) (sg : option csig)      (* ValidateBasic + msg server: what a tx does *)
 | CMigrateSrv (from to : addr)                      (* the msg server alone *)
-| CEndBlock (t next : Z) (burns : list Z)
-| CSubmit (a : addr) (amt : Z)
+| CEndBlock (t next : Z) (burns converts : list Z)
+| CSubmit (a : addr) (amt : Z) (exp vp mind : Z)
 | CDeposit (a : addr) (pid amt : Z)
 | CVote (a : addr) (pid : Z)
 | CExportImport (h : Z)                             (* app-level export, fresh app, InitChain at height h *)
@@ -50,7 +51,8 @@ Inductive cop :=
 | CDelegate (a v : addr) (amt : Z) (ans : vans)
 | CUndelegate (a v : addr) (shares : Z) (ans : vans)
 | CWithdraw (a v : addr) (ans : vans)
-| CRedelegate (a v w : addr) (shares : Z) (ans1 ans2 : vans).
+| CRedelegate (a v w : addr) (shares : Z) (ans1 ans2 : vans)
+| CSlashUbd (v ih fr : Z).                         (* Keeper.Slash: only its effect on the unbonding records is compared *)
 
 (* two answers in sequence: the environment is the list of answers still to be given *)
 Definition ask_seq (e : list vans) (_ : query) : vans :=
@@ -78,14 +80,15 @@ Definition model_step (s : state) (o : cop) : outcome state :=
   match o with
   | CMigrate f t sg => migrate_tx csig crecover s f t sg
   | CMigrateSrv f t => migrate_account s f t
-  | CEndBlock t n b => Ok (end_block t n b s)
-  | CSubmit a amt => submit_proposal a amt s
+  | CEndBlock t n b c => Ok (end_block t n b c s)
+  | CSubmit a amt x vp m => submit_proposal a amt (negb (x =? 0)) vp m s
   | CDeposit a pid amt => add_deposit pid a amt s
   | CVote a pid => cast_vote a pid s
   | CExportImport h => Ok (export_import h s)
   | CDelegate a v amt ans => drop_env (f_delegate vans ask_obs next_obs ans s a v amt)
   | CUndelegate a v sh ans => drop_env (f_undelegate vans ask_obs next_obs ans s a v sh)
   | CWithdraw a v ans => drop_env (f_withdraw vans ask_obs next_obs ans s a v)
+  | CSlashUbd v ih fr => Ok (slash_ubds s v ih fr)
   | CRedelegate a v w sh ans1 ans2 => drop_env' (f_redelegate (list vans) ask_seq next_seq [ans1; ans2] s a v w sh)
   end.
 
@@ -124,7 +127,12 @@ Definition pst_eqb (a b : pstatus) : bool :=
   match a, b with PDeposit, PDeposit | PVoting, PVoting | PClosed, PClosed => true | _, _ => false end.
 Definition prop_eqb (a b : proposal) :=
   pst_eqb (p_status a) (p_status b) && (p_proposer a =? p_proposer b) && (p_total a =? p_total b)
-  && (p_dep_end a =? p_dep_end b) && (p_vote_end a =? p_vote_end b).
+  && (p_dep_end a =? p_dep_end b) && (p_vote_end a =? p_vote_end b)
+  && match p_status a with
+     | PClosed => true   (* a closed proposal's period data no longer matters *)
+     | PVoting => (p_vp a =? p_vp b) && Bool.eqb (p_exp a) (p_exp b)   (* nor the opening deposit once voting has begun *)
+     | PDeposit => (p_vp a =? p_vp b) && (p_min a =? p_min b) && Bool.eqb (p_exp a) (p_exp b)
+     end.
 Definition mr_eqb (a b : mig_rec) := (m_flag a =? m_flag b) && (m_other a =? m_other b) && (m_height a =? m_height b).
 
 (* one boolean per compared component, in a fixed order (see `diag`) *)
@@ -167,7 +175,16 @@ Definition mig_mismatch (c : mig_case) : bool :=
   match model_step (mc_pre c) (mc_op c), mc_obs c with
   | Ok s', OOk =>
       match mc_op c with
+      | CSlashUbd v _ _ =>
+          (* only the unbonding records AT the slashed validator: the redelegation part of the real Slash (not
+             modelled) also touches delegations and unbonding entries at destination validators and both pools *)
+          negb (seteq (paireq k2_eqb ubd_eqb)
+                  (filter (fun kv : Z * Z * ubd_rec => snd (fst kv) =? v) (ubds (stake s')))
+                  (filter (fun kv : Z * Z * ubd_rec => snd (fst kv) =? v) (ubds (stake (mc_post c)))))
       | CExportImport _ => negb (forallb (fun x => x) (skipn 20 (state_cmp s' (mc_post c))))   (* the migrate store only *)
+      | CMigrate _ _ _ | CMigrateSrv _ _ =>
+          (* plus the bank's locked amounts (vesting): a migration changes neither account object *)
+          negb (state_eqb s' (mc_post c) && seteq (paireq k2_eqb Z.eqb) (locked s') (locked (mc_post c)))
       | _ => negb (state_eqb s' (mc_post c))
       end
   | Err e, OErr code => negb (err_code e =? code) || negb (state_eqb (mc_pre c) (mc_post c))
